@@ -387,6 +387,9 @@ class Env:
             ev = ctx().events
             return [e for e in ev if kind is None or e[0] == kind]
         if kind == 'warn':
+            live = getattr(self, '_live', None)
+            if live is not None:
+                return [('warn', (str(x.message), x.category.__name__)) for x in live]
             return [('warn', w) for w in self.warn_log]
         return []
 
@@ -553,6 +556,7 @@ def run_concrete(scen, cfg, values, impl, lib=None, rng=None, timeout=20):
         try:
             with _w.catch_warnings(record=True) as wl:
                 _w.simplefilter('always')
+                env._live = wl
                 try:
                     scen(env, cfg)
                 finally:
